@@ -80,7 +80,11 @@ extern "C" cholmod_dense* nnls_normal_block3(cholmod_sparse*, cholmod_dense*, in
 CaseResult body_nnls(Chooser& ch, Stats* st) {
   CaseResult r;
   QuietStderr q;
-  int n = 8 + (int)ch.draw(0, 52);
+  // a quarter of the systems are larger (100..220 unknowns) with most components positive at the optimum: there
+  // modify_factor's choice between row updates of several rows and a refactorization - which divides its flop
+  // estimate by the worker count - actually differs between worker counts
+  bool big = gen_version() >= 2 && ch.coin(1, 4);
+  int n = big ? 100 + (int)ch.draw(0, 120) : 8 + (int)ch.draw(0, 52);
   int m = n + (int)ch.draw(0, n);
   uint64_t salt = ch.draw(0, 0xffffff);
   std::vector<double> M((size_t)m * n, 0.0), A((size_t)n * n, 0.0), b(n);
@@ -98,6 +102,11 @@ CaseResult body_nnls(Chooser& ch, Stats* st) {
   }
   for (int i = 0; i < n; i++) { uint64_t h = mix64(salt ^ mix64(777777 + (uint64_t)i)); b[i] = ((h & 1) ? 1.0 : -1.0) * (double)(1 + (h >> 4) % 64) / 8.0 * n; }
   if (kind == 1) { double acc = 0; for (int i = n - 1; i >= 0; i--) { acc += b[i]; b[i] = acc; } }   // L'b
+  if (big) {  // constructed optimum with 7/8 of the components positive: b := A x0 - g0
+    std::vector<double> x0(n, 0.0), g0(n, 0.0);
+    for (int i = 0; i < n; i++) { uint64_t h = mix64(salt ^ mix64(424242 + (uint64_t)i)); if (h % 8 != 0) x0[i] = (double)(1 + (h >> 8) % 8) / 4.0; else g0[i] = (double)(1 + (h >> 8) % 8) / 8.0; }
+    for (int i = 0; i < n; i++) { double a = 0; for (int j = 0; j < n; j++) a += A[(size_t)i * n + j] * x0[j]; b[i] = a - g0[i]; }
+  }
   static const int cpus[] = {0, 0, 2, 3};
   g_usable_cpus = cpus[ch.draw(0, 3)];
   struct Reset { ~Reset() { g_usable_cpus = 0; } } reset;
@@ -130,7 +139,7 @@ CaseResult body_nnls(Chooser& ch, Stats* st) {
   }
   if (st) {
     long ls = (g_pin_calls - pins0) / 67; st->label(ls == 0 ? "line_searches:none" : ls < 4 ? "line_searches:1-3" : "line_searches:4+"); st->label("line_searches_x_worker_counts", (size_t)(ls * 7));
-    st->label(g_usable_cpus ? "cpus:restricted" : "cpus:all"); st->label(kind ? "basis:cumulative" : "basis:plain"); if (ls > 0) st->label(kind ? "line_searches_in:cumulative" : "line_searches_in:plain");
+    st->label(g_usable_cpus ? "cpus:restricted" : "cpus:all"); st->label(kind ? "basis:cumulative" : "basis:plain"); if (big) st->label("size:100-220_large_free_set"); if (ls > 0) st->label(kind ? "line_searches_in:cumulative" : "line_searches_in:plain");
     Hasher h; h.add(kind); h.add(n); h.add(m); h.add(salt); h.add(g_usable_cpus); if (ls > 0) st->nontriv(h.h); st->sample(r.json);
   }
   return r;
